@@ -191,3 +191,54 @@ def count_negations(e: ast.AST) -> Tuple[ast.AST, int]:
             e, n = e.left, n + 1
         else:
             return e, n
+
+
+class _Canon(ast.NodeTransformer):
+    def __init__(self, names):
+        self.map = {}
+        self.names = names
+
+    def _n(self, x):
+        if x in self.names:
+            if x not in self.map:
+                self.map[x] = f"v{len(self.map)}"
+            return self.map[x]
+        return x
+
+    def visit_Name(self, node):
+        return ast.copy_location(ast.Name(id=self._n(node.id), ctx=node.ctx), node)
+
+    def visit_arg(self, node):
+        return ast.copy_location(ast.arg(arg=self._n(node.arg), annotation=None), node)
+
+
+def canon(fn: ast.AST) -> str:
+    """Normalised text of a function / lambda with parameters and local variables alpha-renamed
+    (v0, v1, … in order of first appearance), annotations, docstring and decorators dropped.  Two functions
+    that differ only by local naming have the same canon()."""
+    fn = copy.deepcopy(fn)
+    local = set()
+    if hasattr(fn, "args"):
+        a = fn.args
+        for x in list(a.posonlyargs) + list(a.args) + list(a.kwonlyargs):
+            local.add(x.arg)
+        if a.vararg:
+            local.add(a.vararg.arg)
+        if a.kwarg:
+            local.add(a.kwarg.arg)
+    for n in ast.walk(fn):
+        if isinstance(n, ast.Name) and isinstance(n.ctx, ast.Store):
+            local.add(n.id)
+        if isinstance(n, ast.AnnAssign) and n.value is not None:
+            pass
+    if isinstance(fn, (ast.FunctionDef, ast.AsyncFunctionDef)):
+        fn.decorator_list = []
+        fn.returns = None
+        fn.name = "f"
+        if fn.body and isinstance(fn.body[0], ast.Expr) and isinstance(fn.body[0].value, ast.Constant) and isinstance(fn.body[0].value.value, str):
+            fn.body = fn.body[1:] or [ast.Pass()]
+        for n in ast.walk(fn):
+            if isinstance(n, ast.AnnAssign) and n.value is not None and isinstance(n.target, ast.Name):
+                n.annotation = ast.Name(id="T", ctx=ast.Load())
+    out = _Canon(local).visit(fn)
+    return norm(ast.fix_missing_locations(out))
